@@ -98,7 +98,7 @@ func checkC17(c *Ctx) error {
 	c.Cov["traces_validated_against_impl"] = len(keys)
 	c.Cov["cli_executions"] = cli
 	c.Cov["exhaustive"] = true
-	c.Cov["rule"] = fmt.Sprintf("the Scanner model is explored for every input of 1 or 3 lines with one line of length class below/at/above/double/huge (65534, 65536, 65537, 131072, %d bytes) at every position; each behaviour is replayed for 8 consumers (generate entry, include file, exclude file, include with suffix replacement, format, renumber-tests, update-copyright, rules file for update/compare) with and without final newline; exit 0 is accepted only when every line - in particular those after the long one - shows up in the result; non-trivial = the input has a line of 65536 bytes or more", huge)
+	c.Cov["rule"] = fmt.Sprintf("the Scanner model is explored for every input of 1 or 3 lines with one line of length class below/at/above/double/huge (65534, 65536, 65537, 131072, %d bytes) at every position; each behaviour is replayed for 9 consumers (generate entry, entry produced by definition expansion, include file, exclude file, include with suffix replacement, format, renumber-tests, update-copyright, rules file for update/compare) with and without final newline; exit 0 is accepted only when every line - in particular those after the long one - shows up in the result; non-trivial = the input has a line of 65536 bytes or more", huge)
 	c.Summary = fmt.Sprintf("states=%d cases=%d cli=%d", st.Distinct, len(keys), cli)
 	return nil
 }
@@ -179,6 +179,28 @@ func scanReplay(c *Ctx, name string, sc scanCase, allowed map[string]bool, huge 
 			}
 		}
 		t["regex-assembly/932100.ra"] = prog
+		writeTree(root, t)
+		r := run("regex", "generate", "932100")
+		if loud(r, "generate") {
+			return
+		}
+		if w := matchesAll(r.Stdout, want, nil); w != "" {
+			bad("generate exits 0 but " + w)
+		}
+	case "expand":
+		// the long line only comes into existence when a definition is expanded (twice) in one entry
+		var prog, want []string
+		for i, x := range texts {
+			if sc.Lines[i] == "short" || sc.Lines[i] == "below" {
+				prog = append(prog, x)
+				want = append(want, x)
+			} else {
+				half := x[:len(x)/2]
+				prog = append(prog, "##!> define v"+fmt.Sprint(i)+" "+half, "z{{v"+fmt.Sprint(i)+"}}{{v"+fmt.Sprint(i)+"}}")
+				want = append(want, "z"+half+half)
+			}
+		}
+		t["regex-assembly/932100.ra"] = join(prog)
 		writeTree(root, t)
 		r := run("regex", "generate", "932100")
 		if loud(r, "generate") {
